@@ -18,6 +18,7 @@ Definition nltb (x y : num) : bool := if Rlt_dec x y then true else false.
 Definition nleb (x y : num) : bool := if Rle_dec x y then true else false.
 Definition nsqrt (x : num) : num := sqrt x.
 Definition nexp (x : num) : num := exp x.
+Definition nln (x : num) : num := ln x.
 Definition nabs (x : num) : num := Rabs x.
 Definition nmin (x y : num) : num := Rmin x y.
 Definition nmax (x y : num) : num := Rmax x y.
